@@ -144,7 +144,9 @@ TEXT = {
     "C18": ("Theorems: get_target_history (model of the fixed code, recursion on the gindex path with per-level "
             "de-duplication) equals 'look the position up in every entry and drop consecutive repeats' on keys and roots, "
             "for all histories and targets (premise Hinj); never empty for a non-empty history; get_diff empty on equal "
-            "roots, sound (pairs differ, one side a leaf, same position), grafting its second members reproduces the "
+            "roots, sound (pairs differ, one side a leaf, same position), EXACTLY the minimal differing pairs (reported at q iff "
+            "the roots differ at q and above and the two subtrees are not both inner nodes; with Hinj: iff they differ at q), "
+            "in strictly increasing left-to-right order and never nested; grafting its second members reproduces the "
             "second root; leaf_iter = leaves at leaf positions left to right. Tie: history.py / tree.py on generated "
             "histories (repeats, reversions) and tree pairs.",
             "Coq proof by induction on paths / trees + correspondence", "5 (C18)"),
